@@ -1,5 +1,5 @@
 """C08 - dynamic solvers always answer for the current framework"""
-from . import dyn, dynalloc
+from . import dyn, dynalloc, dyncnf
 
 
 def run(ctx):
@@ -11,9 +11,10 @@ def run(ctx):
     dynalloc.rule_reencode_on_removal(ctx)
     dynalloc.rule_monotone_allocation(ctx)
     dyn.rule_dummy_delegation(ctx)
+    dyncnf.rule_dynamic_clause_templates(ctx)
     ctx.assume("rustc's MIR and resolved callees; Vec/Cell/Rc/RefCell std semantics")
     return (
         "F5 on the event-log scans (update variants are barriers), F2 on logging/replay/cursor, allocator-discipline analysis of the SAT variables "
         "handed out on each shared solver handle (R-ALLOC), F2/F4 on selector retirement and slot exhaustion. Decides invalidation, logging and "
-        "allocation shape clauses; equality of answers with a from-scratch computation is a value clause and is not decided."
+        "allocation shape clauses, and (F12) that the guarded clauses issued when an argument is re-encoded have the shapes of the static complete / stable encodings; equality of answers with a from-scratch computation is a value clause and is not decided."
     )
